@@ -274,3 +274,54 @@ func c04Invocations() []string {
 		"func fact(n) { if n < 2 { return 1 }; m = n; r = fact(n - 1); return m * r }\nprobe(fact(5)); probe(m ?? \"no-m\")")
 	return out
 }
+
+// ---- C02: spinning cores under every wrapping construct ----
+func c02Programs() []string {
+	cores := []string{
+		"for { probe(\"spin\") }",
+		"n = 0; for true { n++ }",
+		"for i = 0; true; i++ { n = i }",
+		"for i = 0; ; i++ { }",
+		"for x in [1, 2, 3] { for { } }",
+		"for k, v in {\"a\": 1} { for { n = k } }",
+		"func r(n) { r(n + 1) }; r(0)",
+		"func r6(a, b, c, d, e, f) { r6(a + 1, b, c, d, e, f) }; r6(0, 1, 2, 3, 4, 5)",
+		"for { try { throw 1 } catch { } }",
+		"for { try { zz = 1 % 0 } catch e { probe(\"c-in\") } finally { n = 1 } }",
+		"for { n = nil ?? 1 }",
+		"for { n = (1 % 0) ?? 2 }",
+		"for { switch 1 {\ncase 1: n = 1\n} }",
+		"for { if true { n = 1 } else { n = 2 } }",
+		"for { n = func(a) { return a }(1) }",
+		"for { n = [1, 2][0] + len(\"ab\") }",
+	}
+	wraps := []string{
+		"%s",
+		"func w0() { %s }\nw0()",
+		"func w1(a) { %s }\nw1(1)",
+		"func w4(a, b, c, d) { %s }\nw4(1, 2, 3, 4)",
+		"func w5(a, b, c, d, e) { %s }\nw5(1, 2, 3, 4, 5)",
+		"func wv(a, rest...) { %s }\nwv(1, 2, 3)",
+		"func ws(a, b) { %s }\nws([1, 2]...)",
+		"try { %s } catch e { probe(\"caught\") } finally { probe(\"finally\") }",
+		"try { func() { %s }() } catch e { probe(\"caught\"); probe(\"caught2\") }\nprobe(\"after\")",
+		"x = func() { %s }() ?? probe(\"rhs\")\nprobe(\"after\")",
+		"x = [func() { %s }() ?? probe(\"rhs1\"), func() { %s }() ?? probe(\"rhs2\")]\nprobe(\"after\")",
+		"defer probe(\"d\")\n%s",
+		"func wd() { defer probe(\"d\"); defer func() { probe(\"d\") }(); %s }\nwd()\nprobe(\"after\")",
+		"if true { %s }\nprobe(\"after\")",
+		"switch 1 {\ncase 1: %s\n}\nprobe(\"after\")",
+		"module m { %s }\nprobe(\"after\")",
+		"for q in [1, 2] { %s }\nprobe(\"after\")",
+		"func outer() { try { %s } catch e { return 1 }; return 2 }\nprobe(outer() ?? \"swallowed\")",
+		"y = true ? func() { %s }() : 0\nprobe(\"after\")",
+		"z = func() { %s }() || probe(\"rhs\")\nprobe(\"after\")",
+	}
+	var out []string
+	for _, c := range cores {
+		for _, w := range wraps {
+			out = append(out, strings.ReplaceAll(w, "%s", c))
+		}
+	}
+	return out
+}
